@@ -1,4 +1,5 @@
 import Juniper.Proofs.StreamDen
+import Juniper.Proofs.StreamFacts
 /-!
 # Close discipline (C09): ghost Next/Close logs of the scripted source
 
@@ -87,7 +88,7 @@ theorem forwards_close_once {m' : SM σ' γ} {proj : σ' → Src α} (h : Forwar
 
 /-! ## every single-source wrapper forwards (hypotheses: the regenerated `Close` forwarding facts) -/
 
-theorem withPeek_forwards (m : SM σ α) (h : stPeekCloseForwards = true := by decide) :
+theorem withPeek_forwards (m : SM σ α) :
     Forwards m (withPeek m) (fun p => p.inner) where
   step := by
     intro t c
@@ -95,18 +96,18 @@ theorem withPeek_forwards (m : SM σ α) (h : stPeekCloseForwards = true := by d
     cases curr with
     | some a => left; simp [withPeek, peekNext, stPeekNextHas]
     | none => right; simp [withPeek, peekNext, stPeekNextHas]
-  close := by intro t; simp [withPeek, peekClose, h]
+  close := by intro t; simp [withPeek, peekClose, stPeekCloseForwards_fact]
 
-theorem chunk_forwards (size : Int) (m : SM σ α) (h : stChunkCloseForwards = true := by decide) :
+theorem chunk_forwards (size : Int) (m : SM σ α) :
     Forwards m (chunk size m) (fun st => st.inner) where
   step := by
     intro t c
     right
     rcases hy : m.step t.inner c with ⟨r, u⟩
     cases r <;> simp [chunk, hy] <;> split <;> rfl
-  close := by intro t; simp [chunk, h]
+  close := by intro t; simp [chunk, stChunkCloseForwards_fact]
 
-theorem compact_forwards (eq : α → α → Bool) (m : SM σ α) (h : stCompactCloseForwards = true := by decide) :
+theorem compact_forwards (eq : α → α → Bool) (m : SM σ α) :
     Forwards m (compact eq m) (fun st => st.inner) where
   step := by
     intro t c
@@ -118,9 +119,9 @@ theorem compact_forwards (eq : α → α → Bool) (m : SM σ α) (h : stCompact
     · split
       · split <;> rfl
       · rfl
-  close := by intro t; simp [compact, h]
+  close := by intro t; simp [compact, stCompactCloseForwards_fact]
 
-theorem filter_forwards (keep : α → Except Err Bool) (m : SM σ α) (h : stFilterCloseForwards = true := by decide) :
+theorem filter_forwards (keep : α → Except Err Bool) (m : SM σ α) :
     Forwards m (filter keep m) (fun st => st.inner) where
   step := by
     intro t c
@@ -128,9 +129,9 @@ theorem filter_forwards (keep : α → Except Err Bool) (m : SM σ α) (h : stFi
     rcases hy : m.step t.inner c with ⟨r, u⟩
     cases r <;> simp [filter, hy]
     split <;> rfl
-  close := by intro t; simp [filter, h]
+  close := by intro t; simp [filter, stFilterCloseForwards_fact]
 
-theorem map_forwards (f : α → Except Err β) (m : SM σ α) (h : stMapCloseForwards = true := by decide) :
+theorem map_forwards (f : α → Except Err β) (m : SM σ α) :
     Forwards m (map f m) (fun st => st.inner) where
   step := by
     intro t c
@@ -138,9 +139,9 @@ theorem map_forwards (f : α → Except Err β) (m : SM σ α) (h : stMapCloseFo
     rcases hy : m.step t.inner c with ⟨r, u⟩
     cases r <;> simp [map, hy]
     split <;> rfl
-  close := by intro t; simp [map, h]
+  close := by intro t; simp [map, stMapCloseForwards_fact]
 
-theorem first_forwards (m : SM σ α) (h : stFirstCloseForwards = true := by decide) :
+theorem first_forwards (m : SM σ α) :
     Forwards m (first m) (fun st => st.inner) where
   step := by
     intro t c
@@ -149,9 +150,9 @@ theorem first_forwards (m : SM σ α) (h : stFirstCloseForwards = true := by dec
     · right
       rcases hy : m.step t.inner c with ⟨r, u⟩
       cases r <;> simp [first, hd, hy]
-  close := by intro t; simp [first, h]
+  close := by intro t; simp [first, stFirstCloseForwards_fact]
 
-theorem while_forwards (f : α → Except Err Bool) (m : SM σ α) (h : stWhileCloseForwards = true := by decide) :
+theorem while_forwards (f : α → Except Err Bool) (m : SM σ α) :
     Forwards m (while_ f m) (fun st => st.inner) where
   step := by
     intro t c
@@ -160,16 +161,16 @@ theorem while_forwards (f : α → Except Err Bool) (m : SM σ α) (h : stWhileC
     · by_cases hp : stWhilePulls t.held.isSome = true
       · right
         rcases hy : m.step t.inner c with ⟨r, u⟩
-        cases r <;> simp [while_, hd, hp, hy, whileEval]
+        cases r <;> simp [while_, hd, hp, hy]
         split <;> rfl
       · left
         simp only [while_, hd, hp]
         cases t.held with
         | none => simp
-        | some a => simp [whileEval]; split <;> rfl
-  close := by intro t; simp [while_, h]
+        | some a => simp; split <;> rfl
+  close := by intro t; simp [while_, stWhileCloseForwards_fact]
 
-theorem flattenSlices_forwards (m : SM σ (List α)) (h : stFlattenSlicesCloseForwards = true := by decide) :
+theorem flattenSlices_forwards (m : SM σ (List α)) :
     Forwards m (flattenSlices m) (fun st => st.inner) where
   step := by
     intro t c
@@ -180,32 +181,47 @@ theorem flattenSlices_forwards (m : SM σ (List α)) (h : stFlattenSlicesCloseFo
       right
       rcases hy : m.step s c with ⟨r, u⟩
       cases r <;> simp [flattenSlices, hy]
-  close := by intro t; simp [flattenSlices, h]
+  close := by intro t; simp [flattenSlices, stFlattenSlicesCloseForwards_fact]
 
 
 /-! ## reducers close on every path (hypotheses: the regenerated `defer s.Close()` facts) -/
 
-theorem reduceLoop_reach {δ : Type x} (m : SM σ α) (f : δ → α → Except Err δ) (c : Bool) (fuel : Nat) (acc : δ) (s : σ) :
-    ∃ cs, (reduceLoop m f c fuel acc s).2 = afterS m cs s := by
+theorem reduceLoop_reach {δ : Type x} (g : RGuards) (m : SM σ α) (f : δ → α → Except Err δ) (c : Bool) (fuel : Nat) (acc : δ) (s : σ) :
+    ∃ cs, (reduceLoop g m f c fuel acc s).2 = afterS m cs s := by
   induction fuel generalizing acc s with
   | zero => exact ⟨[], rfl⟩
   | succ fuel ih =>
     rw [reduceLoop]
     rcases hy : m.step s c with ⟨r, u⟩
     have hu : u = afterS m [c] s := by simp [afterS, hy]
+    have one : ∀ (x : ROut δ), ∃ cs, (x, u).2 = afterS m cs s := fun _ => ⟨[c], hu⟩
     cases r with
-    | item a =>
-      simp only
-      cases hf : f acc a with
-      | error e => exact ⟨[c], by simp [hu]⟩
-      | ok acc' =>
-        obtain ⟨cs, hcs⟩ := ih acc' u
-        exact ⟨c :: cs, by simp only [hcs, afterS, hy]⟩
     | skip =>
       obtain ⟨cs, hcs⟩ := ih acc u
       exact ⟨c :: cs, by simp only [hcs, afterS, hy]⟩
-    | end_ => exact ⟨[c], by simp [hu]⟩
-    | err e => exact ⟨[c], by simp [hu]⟩
+    | item a =>
+      simp only
+      split
+      · exact one _
+      · split
+        · exact one _
+        · split
+          · exact one _
+          · cases hf : f acc a with
+            | error e => exact one _
+            | ok acc' =>
+              obtain ⟨cs, hcs⟩ := ih acc' u
+              exact ⟨c :: cs, by simp only [hcs, afterS, hy]⟩
+    | end_ =>
+      simp only
+      split
+      · exact one _
+      · split <;> exact one _
+    | err e =>
+      simp only
+      split
+      · exact one _
+      · split <;> exact one _
 
 theorem lastLoop_reach (m : SM σ α) (n : Int) (c : Bool) (fuel : Nat) (buf : List (Option α)) (i : Int) (s : σ) :
     ∃ cs, (lastLoop m n c fuel buf i s).2 = afterS m cs s := by
@@ -215,19 +231,32 @@ theorem lastLoop_reach (m : SM σ α) (n : Int) (c : Bool) (fuel : Nat) (buf : L
     rw [lastLoop]
     rcases hy : m.step s c with ⟨r, u⟩
     have hu : u = afterS m [c] s := by simp [afterS, hy]
+    have one : ∀ (x : ROut (List (Option α) × Int)), ∃ cs, (x, u).2 = afterS m cs s := fun _ => ⟨[c], hu⟩
     cases r with
-    | item a =>
-      simp only
-      cases hl : lastStore buf i n a with
-      | none => exact ⟨[c], by simp [hu]⟩
-      | some buf' =>
-        obtain ⟨cs, hcs⟩ := ih buf' (if stLastCounts then i + 1 else i) u
-        exact ⟨c :: cs, by simp only [hcs, afterS, hy]⟩
     | skip =>
       obtain ⟨cs, hcs⟩ := ih buf i u
       exact ⟨c :: cs, by simp only [hcs, afterS, hy]⟩
-    | end_ => exact ⟨[c], by simp [hu]⟩
-    | err e => exact ⟨[c], by simp [hu]⟩
+    | item a =>
+      simp only
+      split
+      · exact one _
+      · split
+        · exact one _
+        · cases hl : lastStore buf i n a with
+          | none => exact one _
+          | some buf' =>
+            obtain ⟨cs, hcs⟩ := ih buf' (if stLastCounts then i + 1 else i) u
+            exact ⟨c :: cs, by simp only [hcs, afterS, hy]⟩
+    | end_ =>
+      simp only
+      split
+      · exact one _
+      · split <;> exact one _
+    | err e =>
+      simp only
+      split
+      · exact one _
+      · split <;> exact one _
 
 theorem drive_reach (m : SM σ α) (c : Bool) (fuel : Nat) (s : σ) : ∃ cs, (drive m c fuel s).2 = afterS m cs s := by
   induction fuel generalizing s with
@@ -244,38 +273,37 @@ theorem drive_reach (m : SM σ α) (c : Bool) (fuel : Nat) (s : σ) : ∃ cs, (d
     | end_ => exact ⟨[c], by simp [hu]⟩
     | err e => exact ⟨[c], by simp [hu]⟩
 
-theorem collect_reach (m : SM σ α) (c : Bool) (fuel : Nat) (s : σ) (h : stCollectDefersClose = true := by decide) :
+theorem collect_reach (m : SM σ α) (c : Bool) (fuel : Nat) (s : σ) :
     ∃ cs, (collect m c fuel s).2 = m.close (afterS m cs s) := by
   have _tie := Skeleton.Tie.stCollect
-  obtain ⟨cs, hcs⟩ := reduceLoop_reach m (fun (acc : List α) a => .ok (acc ++ [a])) c fuel [] s
-  exact ⟨cs, by simp only [collect, deferClose, h, if_true, hcs]⟩
+  obtain ⟨cs, hcs⟩ := reduceLoop_reach collectG m (fun (acc : List α) a => .ok (acc ++ [a])) c fuel [] s
+  exact ⟨cs, by simp only [collect, deferClose, stCollectDefersClose_fact, if_true, hcs]⟩
 
-theorem reduce_reach {δ : Type x} (m : SM σ α) (f : δ → α → Except Err δ) (c : Bool) (fuel : Nat) (init : δ) (s : σ)
-    (h : stReduceDefersClose = true := by decide) :
+theorem reduce_reach {δ : Type x} (m : SM σ α) (f : δ → α → Except Err δ) (c : Bool) (fuel : Nat) (init : δ) (s : σ) :
     ∃ cs, (reduce m f c fuel init s).2 = m.close (afterS m cs s) := by
   have _tie := Skeleton.Tie.stReduce
-  obtain ⟨cs, hcs⟩ := reduceLoop_reach m f c fuel init s
-  exact ⟨cs, by simp only [reduce, deferClose, h, if_true, hcs]⟩
+  obtain ⟨cs, hcs⟩ := reduceLoop_reach reduceG m f c fuel init s
+  exact ⟨cs, by simp only [reduce, deferClose, stReduceDefersClose_fact, if_true, hcs]⟩
 
-theorem sample_reach (m : SM σ α) (c : Bool) (fuel : Nat) (s : σ) (h : sampleStreamDefersClose = true := by decide) :
+theorem sample_reach (m : SM σ α) (c : Bool) (fuel : Nat) (s : σ) :
     ∃ cs, (sampleCount m c fuel s).2 = m.close (afterS m cs s) := by
-  obtain ⟨cs, hcs⟩ := reduceLoop_reach m (fun (acc : Nat) _ => .ok (acc + 1)) c fuel 0 s
-  exact ⟨cs, by simp only [sampleCount, deferClose, h, if_true, hcs]⟩
+  obtain ⟨cs, hcs⟩ := reduceLoop_reach sampleG m (fun (acc : Nat) _ => .ok (acc + 1)) c fuel 0 s
+  exact ⟨cs, by simp only [sampleCount, sampleStreamW, rSampleCount, deferClose, sampleStreamDefersClose_fact, if_true, hcs]⟩
 
-theorem last_reach (m : SM σ α) (n : Int) (c : Bool) (fuel : Nat) (s : σ) (h : stLastDefersClose = true := by decide) :
+theorem last_reach (m : SM σ α) (n : Int) (c : Bool) (fuel : Nat) (s : σ) :
     ∃ cs, (last m n c fuel s).2 = m.close (afterS m cs s) := by
   have _tie := Skeleton.Tie.stLast
   by_cases hn : n < 0
-  · exact ⟨[], by simp [last, hn, deferClose, h, afterS]⟩
+  · exact ⟨[], by simp [last, hn, deferClose, stLastDefersClose_fact, afterS]⟩
   · obtain ⟨cs, hcs⟩ := lastLoop_reach m n c fuel (List.replicate n.toNat none) 0 s
-    exact ⟨cs, by simp only [last, hn, if_false, deferClose, h, if_true, hcs]⟩
+    exact ⟨cs, by simp only [last, hn, if_false, deferClose, stLastDefersClose_fact, if_true, hcs]⟩
 
-theorem one_reach (m : SM σ α) (c : Bool) (fuel : Nat) (s : σ) (h : stOneDefersClose = true := by decide) :
+theorem one_reach (m : SM σ α) (c : Bool) (fuel : Nat) (s : σ) :
     ∃ cs, (one m c fuel s).2 = m.close (afterS m cs s) := by
   have _tie := Skeleton.Tie.stOne
   obtain ⟨cs1, h1⟩ := drive_reach m c fuel s
   obtain ⟨cs2, h2⟩ := drive_reach m c fuel (drive m c fuel s).2
-  simp only [one, deferClose, h, if_true]
+  simp only [one, deferClose, stOneDefersClose_fact, if_true]
   rcases hd : drive m c fuel s with ⟨r, s1⟩
   rw [hd] at h1 h2
   simp only at h1 h2
@@ -287,7 +315,7 @@ theorem one_reach (m : SM σ α) (c : Bool) (fuel : Nat) (s : σ) (h : stOneDefe
     | err e => exact ⟨cs1, by simp [h1]⟩
     | skip => exact ⟨cs1, by simp [h1]⟩
     | item a =>
-      simp only
+      simp only [oneFirst_item]
       rcases hd2 : drive m c fuel s1 with ⟨r2, s2⟩
       rw [hd2] at h2
       simp only at h2
@@ -308,7 +336,7 @@ variable {τ : Type w}
 
 /-! ## Flatten and Join: the streams obtained on the way are closed exactly once -/
 
-theorem flatten_outer_forwards (mo : SM σ τ) (mi : SM τ α) (h : stFlattenCloseForwards = true := by decide) :
+theorem flatten_outer_forwards (mo : SM σ τ) (mi : SM τ α) :
     Forwards mo (flatten mo mi) (fun st => st.outer) where
   step := by
     intro t c
@@ -326,7 +354,7 @@ theorem flatten_outer_forwards (mo : SM σ τ) (mi : SM τ α) (h : stFlattenClo
   close := by
     intro t
     obtain ⟨so, curr, fin⟩ := t
-    cases curr <;> simp [flatten, h] <;> split <;> rfl
+    cases curr <;> simp [flatten, stFlattenCloseForwards_fact] <;> split <;> rfl
 
 /-- closed exactly once, not touched afterwards -/
 def Closed1 (x : Src α) : Prop := x.closes = 1 ∧ x.after = 0
@@ -348,7 +376,6 @@ def FlatInv (st : FlattenSt σ (Src α)) : Prop :=
 
 theorem flatten_inv_step {mo : SM σ (Src α)}
     (hfresh : ∀ s c x s', mo.step s c = (.item x, s') → Open0 x)
-    (hE : stFlattenClosesEnded = true := by decide) (hC : stFlattenClearsCurr = true := by decide)
     {st : FlattenSt σ (Src α)} (h : FlatInv st) (c : Bool) : FlatInv ((flatten mo src).step st c).2 := by
   obtain ⟨so, curr, fin⟩ := st
   obtain ⟨h1, h2⟩ := h
@@ -358,11 +385,11 @@ theorem flatten_inv_step {mo : SM σ (Src α)}
     cases r with
     | item x =>
       have := hfresh so c x u hy
-      simp only [flatten, hy]
+      simp only [flatten, hy, flattenOuterOn_item]
       exact ⟨h1, fun y hy' => by simp at hy'; subst hy'; exact this⟩
     | skip => simp only [flatten, hy]; exact ⟨h1, fun y hy' => by simp at hy'⟩
-    | end_ => simp only [flatten, hy]; exact ⟨h1, fun y hy' => by simp at hy'⟩
-    | err e => simp only [flatten, hy]; exact ⟨h1, fun y hy' => by simp at hy'⟩
+    | end_ => simp only [flatten, hy, flattenOuterOn_end]; exact ⟨h1, fun y hy' => by simp at hy'⟩
+    | err e => simp only [flatten, hy, flattenOuterOn_err]; exact ⟨h1, fun y hy' => by simp at hy'⟩
   | some x =>
     have hx := h2 x rfl
     have hx' := open0_step hx c
@@ -371,11 +398,11 @@ theorem flatten_inv_step {mo : SM σ (Src α)}
     simp only at hx'
     have hstep : (src (α := α)).step x c = (r, u) := hy
     cases r with
-    | item a => simp only [flatten, hstep]; exact ⟨h1, fun y hy' => by simp at hy'; subst hy'; exact hx'⟩
+    | item a => simp only [flatten, hstep, flattenInnerOn_item]; exact ⟨h1, fun y hy' => by simp at hy'; subst hy'; exact hx'⟩
     | skip => simp only [flatten, hstep]; exact ⟨h1, fun y hy' => by simp at hy'; subst hy'; exact hx'⟩
-    | err e => simp only [flatten, hstep]; exact ⟨h1, fun y hy' => by simp at hy'; subst hy'; exact hx'⟩
+    | err e => simp only [flatten, hstep, flattenInnerOn_err]; exact ⟨h1, fun y hy' => by simp at hy'; subst hy'; exact hx'⟩
     | end_ =>
-      simp only [flatten, hstep, hE, hC, if_true]
+      simp only [flatten, hstep, flattenInnerOn_end, stFlattenClosesEnded_fact, stFlattenClearsCurr_fact, if_true]
       refine ⟨fun y hy' => ?_, fun y hy' => by simp at hy'⟩
       simp only [List.mem_append, List.mem_singleton] at hy'
       rcases hy' with hy' | rfl
@@ -387,13 +414,13 @@ theorem flatten_inv_afterS {mo : SM σ (Src α)}
     {st : FlattenSt σ (Src α)} (h : FlatInv st) (cs : List Bool) : FlatInv (afterS (flatten mo src) cs st) := by
   induction cs generalizing st with
   | nil => exact h
-  | cons c cs ih => exact ih (flatten_inv_step hfresh (by decide) (by decide) h c)
+  | cons c cs ih => exact ih (flatten_inv_step hfresh h c)
 
 /-- **Flatten's inner streams**: whenever the consumer stops and closes, every inner stream obtained
 so far (those that ended, and the current one) has been closed exactly once and never pulled after. -/
 theorem flatten_inner_closed_once {mo : SM σ (Src α)}
     (hfresh : ∀ s c x s', mo.step s c = (.item x, s') → Open0 x)
-    (so : σ) (cs : List Bool) (hK : stFlattenCloseCurr = true := by decide) :
+    (so : σ) (cs : List Bool) :
     let st' := (flatten mo src).close (afterS (flatten mo src) cs ⟨so, none, []⟩)
     ∀ x ∈ st'.finished ++ st'.curr.toList, Closed1 x := by
   have _tie := Skeleton.Tie.stFlatten
@@ -412,7 +439,7 @@ theorem flatten_inner_closed_once {mo : SM σ (Src α)}
     exact h1 x hx
   | some y =>
     have : st'.finished = fin ∧ st'.curr = some (srcClose y) := by
-      simp only [st', flatten, hK, if_true]; split <;> exact ⟨rfl, rfl⟩
+      simp only [st', flatten, flattenCloseCurr_eq, stFlattenCloseCurr_fact.1, if_true]; split <;> exact ⟨rfl, rfl⟩
     rw [this.1, this.2] at hx
     simp only [Option.toList, List.mem_append, List.mem_singleton] at hx
     rcases hx with hx | rfl
@@ -423,7 +450,7 @@ theorem flatten_inner_closed_once {mo : SM σ (Src α)}
 def JoinInv (st : JoinSt (Src α)) : Prop :=
   (∀ x ∈ st.finished, Closed1 x) ∧ (∀ x ∈ st.remaining, Open0 x)
 
-theorem join_inv_step (hE : stJoinClosesEnded = true := by decide) (hA : stJoinAdvances = true := by decide)
+theorem join_inv_step
     {st : JoinSt (Src α)} (h : JoinInv st) (c : Bool) : JoinInv ((join src).step st c).2 := by
   obtain ⟨rem, fin⟩ := st
   obtain ⟨h1, h2⟩ := h
@@ -444,11 +471,11 @@ theorem join_inv_step (hE : stJoinClosesEnded = true := by decide) (hA : stJoinA
       · exact hx'
       · exact hr y hy'
     cases res with
-    | item a => simp only [join, hstep]; exact ⟨h1, keep⟩
-    | skip => simp only [join, hstep]; exact ⟨h1, keep⟩
-    | err e => simp only [join, hstep]; exact ⟨h1, keep⟩
+    | item a => simp only [join_step_cons, hstep, joinOn_item]; exact ⟨h1, keep⟩
+    | skip => simp only [join_step_cons, hstep]; exact ⟨h1, keep⟩
+    | err e => simp only [join_step_cons, hstep, joinOn_err]; exact ⟨h1, keep⟩
     | end_ =>
-      simp only [join, hstep, hE, hA, if_true]
+      simp only [join_step_cons, hstep, joinOn_end, stJoinClosesEnded_fact, stJoinAdvances_fact, if_true]
       refine ⟨fun y hy' => ?_, hr⟩
       simp only [List.mem_append, List.mem_singleton] at hy'
       rcases hy' with hy' | rfl
@@ -457,8 +484,7 @@ theorem join_inv_step (hE : stJoinClosesEnded = true := by decide) (hA : stJoinA
 
 /-- **Join's arguments**: the streams that ended were closed at their end, the remaining ones are
 closed by `Close`; each exactly once, none pulled afterwards. -/
-theorem join_rest_closed_once (ss : List (Src α)) (hss : ∀ x ∈ ss, Open0 x) (cs : List Bool)
-    (hF : stJoinCloseForwards = true := by decide) :
+theorem join_rest_closed_once (ss : List (Src α)) (hss : ∀ x ∈ ss, Open0 x) (cs : List Bool) :
     let st' := (join src).close (afterS (join src) cs ⟨ss, []⟩)
     ∀ x ∈ st'.finished ++ st'.remaining, Closed1 x := by
   have _tie := Skeleton.Tie.stJoin
@@ -467,13 +493,13 @@ theorem join_rest_closed_once (ss : List (Src α)) (hss : ∀ x ∈ ss, Open0 x)
     generalize (⟨ss, []⟩ : JoinSt (Src α)) = st0 at base
     induction cs generalizing st0 with
     | nil => exact base
-    | cons c cs ih => exact ih _ (join_inv_step (by decide) (by decide) base c)
+    | cons c cs ih => exact ih _ (join_inv_step base c)
   generalize afterS (join (src (α := α))) cs ⟨ss, []⟩ = st at hinv
   obtain ⟨rem, fin⟩ := st
   obtain ⟨h1, h2⟩ := hinv
   intro st' x hx
   have : st'.finished = fin ∧ st'.remaining = rem.map srcClose := by
-    simp only [st', join, hF, if_true]; exact ⟨trivial, rfl⟩
+    simp only [st', join, joinCloseAll_eq, stJoinCloseForwards_fact.1, if_true]; exact ⟨trivial, rfl⟩
   rw [this.1, this.2] at hx
   simp only [List.mem_append, List.mem_map] at hx
   rcases hx with hx | ⟨y, hy, rfl⟩
@@ -549,14 +575,14 @@ theorem runsOuter_moves (same : α → α → Bool) (m : SM σ α) (st : RunsSt 
     simp only at h
     cases r with
     | end_ =>
-      simp only
+      simp only [runsDrainOn_end]
       have e : ∀ x : RunsSt σ α, (if stRunsClosesCurr = true then runsInnerClose g x else x).pk = x.pk := by
         intro x; split
         · exact runsInnerClose_inner g x
         · rfl
       rw [e]; exact h
-    | err e => exact h
-    | item a => exact h
+    | err e => simpa only [runsDrainOn_err] using h
+    | item a => simpa only [runsDrainOn_item] using h
     | skip => exact h
   | none =>
     have h := peekPeek_moves m ⟨s, curr⟩ c
@@ -564,11 +590,10 @@ theorem runsOuter_moves (same : α → α → Bool) (m : SM σ α) (st : RunsSt 
     rcases hr : peekPeek m ⟨s, curr⟩ c with ⟨r, pk'⟩
     rw [hr] at h
     simp only at h
-    cases r <;> exact h
+    cases r <;> simpa using h
 
 /-- `Runs` (protocol machine) forwards to its source. -/
-theorem runsProto_forwards (same : α → α → Bool) (take : Option Nat) (cl : Bool) (m : SM σ α)
-    (hR : stRunsCloseForwards = true := by decide) (hP : stPeekCloseForwards = true := by decide) :
+theorem runsProto_forwards (same : α → α → Bool) (take : Option Nat) (cl : Bool) (m : SM σ α) :
     Forwards m (runsProto same take cl m) (fun st => st.rs.pk.inner) where
   step := by
     intro t c
@@ -603,6 +628,6 @@ theorem runsProto_forwards (same : α → α → Bool) (take : Option Nat) (cl :
         | err e => exact h
   close := by
     intro t
-    simp [runsProto, runsClose, hR, peekClose, hP]
+    simp [runsProto, runsClose, stRunsCloseForwards_fact, peekClose, stPeekCloseForwards_fact]
 
 end Juniper.Proofs.StreamDen
